@@ -45,8 +45,21 @@ func C15chi(p *load.Program, run *report.Run) {
 			}
 		}
 		sort.Slice(batches, func(i, j int) bool { return batches[i].Pos() < batches[j].Pos() })
+		// a window of local storage that a batch call is handed stands for that batch: two batches may share
+		// one allocation (labels[:n] and labels[n:count])
+		batchArg := map[ssa.Value]bool{}
+		for _, bc := range batches {
+			for _, a := range bc.Call.Args {
+				if sl, ok := a.(*ssa.Slice); ok && (sl.Low != nil || sl.High != nil) {
+					batchArg[a] = true
+				}
+			}
+		}
 		rootOf := func(v ssa.Value) ssa.Value {
 			for d := 0; d < 8; d++ {
+				if batchArg[v] {
+					return v
+				}
 				switch t := v.(type) {
 				case *ssa.Slice:
 					v = t.X
@@ -106,6 +119,19 @@ func C15chi(p *load.Program, run *report.Run) {
 				}
 			}
 			var hit []string
+			// the vector is the very window a batch call filled: that batch, whatever else shares the storage
+			if rv := resolve(vec); batchArg[rv] {
+				for i, bc := range batches {
+					for _, a := range bc.Call.Args {
+						if a == rv {
+							hit = append(hit, fmt.Sprintf("batch%d", i+1))
+						}
+					}
+				}
+				if len(hit) > 0 {
+					return strings.Join(hit, "&")
+				}
+			}
 			for i, bc := range batches {
 				in := x.Set[bc]
 				// the extension fills a vector it is handed: the same storage is an argument of the batch call
